@@ -677,4 +677,198 @@ theorem NoDup_queueReg (v : Variant) (hv : v.dumpreg = .repaired) (parent : Nat)
     · rw [queueReg_live v parent reg f fs hd]
       exact ih _ (NoDup_processFile v hv parent reg f h)
 
+/-! ### Shape of the gate output: only unicast, and (overlap site repaired) no Bulk withdraws what it announces -/
+
+def isSingle : Mrt.Upd → Bool
+  | .single .. => true
+  | _ => false
+
+theorem bulksOf_of_singles (l : List Mrt.Upd) (h : ∀ u ∈ l, isSingle u = true) : Mrt.bulksOf l = [] := by
+  induction l with
+  | nil => rfl
+  | cons u l ih =>
+    have hu := h u List.mem_cons_self
+    cases u with
+    | single v6 pfx id a => simpa [Mrt.bulksOf] using ih (fun u hu => h u (List.mem_cons_of_mem _ hu))
+    | bulk id v6 ann wd => simp [isSingle] at hu
+    | withdraw id => simp [isSingle] at hu
+
+theorem dumpEntries_singles (v6 : Bool) (pfx : Nat) (map : List Nat) (es : List (Nat × Nat)) :
+    ∀ u ∈ (Mrt.dumpEntries v6 pfx map es).1, isSingle u = true := by
+  induction es with
+  | nil => simp [Mrt.dumpEntries]
+  | cons e es ih =>
+    obtain ⟨idx, a⟩ := e
+    simp only [Mrt.dumpEntries]
+    cases map[idx]? with
+    | none => simp
+    | some id =>
+      intro u hu
+      simp only [List.mem_cons] at hu
+      rcases hu with rfl | hu
+      · rfl
+      · exact ih u hu
+
+theorem dumpLoop_singles (map : List Nat) (recs : List Mrt.Rec) :
+    ∀ u ∈ (Mrt.dumpLoop map recs).1, isSingle u = true := by
+  induction recs with
+  | nil => simp [Mrt.dumpLoop]
+  | cons r recs ih =>
+    cases r with
+    | rib v6 pfx es =>
+      cases es with
+      | nil => simp [Mrt.dumpLoop]
+      | cons e es =>
+        simp only [Mrt.dumpLoop]
+        have h1 := dumpEntries_singles v6 pfx map (e :: es)
+        split
+        · rename_i o heq; rw [heq] at h1; exact h1
+        · rename_i o heq
+          rw [heq] at h1
+          intro u hu
+          simp only [List.mem_append] at hu
+          rcases hu with hu | hu
+          · exact h1 u hu
+          · exact ih u hu
+    | _ => simp [Mrt.dumpLoop]
+
+/-- No `Bulk` of the list withdraws a prefix it announces. -/
+def BulksDisjoint (out : List Mrt.Upd) : Prop := ∀ b ∈ Mrt.bulksOf out, ∀ p ∈ b.2.2.1, p ∉ b.2.2.2
+
+theorem BulksDisjoint_append (a b : List Mrt.Upd) (ha : BulksDisjoint a) (hb : BulksDisjoint b) : BulksDisjoint (a ++ b) := by
+  intro x hx
+  rw [Mrt.bulksOf_append, List.mem_append] at hx
+  rcases hx with hx | hx
+  · exact ha x hx
+  · exact hb x hx
+
+theorem BulksDisjoint_singles (l : List Mrt.Upd) (h : ∀ u ∈ l, isSingle u = true) : BulksDisjoint l := by
+  intro x hx
+  rw [bulksOf_of_singles l h] at hx
+  cases hx
+
+theorem BulksDisjoint_processFile (v : Variant) (hov : v.mrt.ov = .repaired) (parent : Nat) (reg : Mrt.Reg) (f : Mrt.File) :
+    BulksDisjoint (processFile v parent reg f).out := by
+  have hm : ∀ reg' recs, BulksDisjoint (Mrt.msgLoop v.mrt parent reg' recs).out :=
+    fun reg' recs => Mrt.C16_overlap_yields_only_announcement v.mrt hov parent reg' recs
+  have hnil : BulksDisjoint [] := fun x hx => by cases hx
+  by_cases hc : f.comp.readable = true
+  · cases hv : v.dumpreg <;>
+      simp only [processFile, Mrt.processFile, hv, hc, Bool.not_true, Bool.false_eq_true, if_false]
+    · split
+      · rename_i ps rest heq
+        split
+        · rename_i o heq2
+          have := dumpLoop_singles (Mrt.registerAll reg parent ps).2 rest
+          rw [heq2] at this
+          exact BulksDisjoint_singles o this
+        · rename_i o heq2
+          have := dumpLoop_singles (Mrt.registerAll reg parent ps).2 rest
+          rw [heq2] at this
+          exact BulksDisjoint_append _ _ (BulksDisjoint_singles o this) (hm _ _)
+      · exact hm _ _
+    · split
+      · rename_i ps rest heq
+        split
+        · rename_i o heq2
+          have := dumpLoop_singles (findOrRegisterAll reg parent ps).2 rest
+          rw [heq2] at this
+          exact BulksDisjoint_singles o this
+        · rename_i o heq2
+          have := dumpLoop_singles (findOrRegisterAll reg parent ps).2 rest
+          rw [heq2] at this
+          exact BulksDisjoint_append _ _ (BulksDisjoint_singles o this) (hm _ _)
+      · exact hm _ _
+  · rw [processFile_unreadable v parent reg f (by simpa using hc)]
+    exact hnil
+
+theorem nlri_inj (ι : PfxInterp) (hι : ι.OK) (v6 : Bool) (x y : Nat) (h : nlri ι v6 x = nlri ι v6 y) : x = y := by
+  simp only [nlri, Rib.Nlri.mk.injEq, and_true] at h
+  exact hι.inj v6 x y h
+
+theorem mem_map_nlri (ι : PfxInterp) (hι : ι.OK) (v6 : Bool) (x : Nat) (l : List Nat) :
+    nlri ι v6 x ∈ l.map (nlri ι v6) ↔ x ∈ l := by
+  simp only [List.mem_map]
+  constructor
+  · rintro ⟨y, hy, heq⟩
+    exact nlri_inj ι hι v6 x y heq.symm ▸ hy
+  · intro h; exact ⟨x, h, rfl⟩
+
+theorem histOf_noOverlap (ι : PfxInterp) (hι : ι.OK) (out : List Mrt.Upd) (as : List Nat) (h : BulksDisjoint out) :
+    (histOf ι out as).all Rib.Ev.noOverlap = true := by
+  induction out generalizing as with
+  | nil => rfl
+  | cons u out ih =>
+    cases u with
+    | single v6 pfx id a =>
+      have h' : BulksDisjoint out := fun x hx => h x (by simpa [Mrt.bulksOf] using hx)
+      simp [histOf, Rib.Ev.noOverlap, Rib.Upd.noOverlap, ih as h']
+    | withdraw id =>
+      have h' : BulksDisjoint out := fun x hx => h x (by simpa [Mrt.bulksOf] using hx)
+      simp [histOf, Rib.Ev.noOverlap, ih as h']
+    | bulk id v6 ann wd =>
+      have h' : BulksDisjoint out := fun x hx => h x (by simp [Mrt.bulksOf, hx])
+      have h0 := h (id, v6, ann, wd) (by simp [Mrt.bulksOf])
+      simp only [histOf, List.all_cons, ih _ h', Bool.and_true, Rib.Ev.noOverlap, Rib.Upd.noOverlap, List.all_eq_true,
+        List.mem_map, Bool.not_eq_true', List.contains_eq_mem, decide_eq_false_iff_not, forall_exists_index, and_imp,
+        forall_apply_eq_imp_iff₂]
+      intro x hx hm
+      obtain ⟨y, hy, heq⟩ := hm
+      have := nlri_inj ι hι v6 y x heq
+      subst this
+      exact h0 y hx hy
+
+theorem histOf_unicast (ι : PfxInterp) (out : List Mrt.Upd) (as : List Nat) (p : Rib.Prefix) :
+    (histOf ι out as).any (Rib.Ev.mentions true p) = false := by
+  induction out generalizing as with
+  | nil => rfl
+  | cons u out ih =>
+    cases u with
+    | single v6 pfx id a => simp [histOf, Rib.Ev.mentions, Rib.safiOf, nlri, ih as]
+    | withdraw id => simp [histOf, Rib.Ev.mentions, ih as]
+    | bulk id v6 ann wd => simp [histOf, Rib.Ev.mentions, Rib.safiOf, nlri, ih _]
+
+theorem queueHist_noOverlap (ι : PfxInterp) (hι : ι.OK) (v : Variant) (hov : v.mrt.ov = .repaired) (parent : Nat)
+    (fs : List Mrt.File) (reg : Mrt.Reg) : (queueHist ι v parent reg fs).all Rib.Ev.noOverlap = true := by
+  induction fs generalizing reg with
+  | nil => rfl
+  | cons f fs ih =>
+    have h1 := histOf_noOverlap ι hι _ (msgAttrs f.recs) (BulksDisjoint_processFile v hov parent reg f)
+    by_cases hd : dies v parent reg f
+    · rw [queueHist_dead ι v parent reg f fs hd]; exact h1
+    · rw [queueHist_live ι v parent reg f fs hd, List.all_append, h1, ih]; rfl
+
+theorem queueHist_unicast (ι : PfxInterp) (v : Variant) (parent : Nat) (fs : List Mrt.File) (reg : Mrt.Reg) (p : Rib.Prefix) :
+    (queueHist ι v parent reg fs).any (Rib.Ev.mentions true p) = false := by
+  induction fs generalizing reg with
+  | nil => rfl
+  | cons f fs ih =>
+    by_cases hd : dies v parent reg f
+    · rw [queueHist_dead ι v parent reg f fs hd]; exact histOf_unicast ι _ _ p
+    · rw [queueHist_live ι v parent reg f fs hd, List.any_append, histOf_unicast, ih]; rfl
+
+/-! ### One `Withdraw(id, None)` at the RIB -/
+
+theorem entry_withdraw (vr : Rib.Variant) (r : Rib) (id : Nat) (mc : Bool) (p : Rib.Prefix) (m : Nat) :
+    (r.apply vr (.withdraw id none)).entry mc p m
+      = if m = id then (r.entry mc p m).map Rib.setWithdrawn else r.entry mc p m := by
+  simp only [Rib.apply, Rib.entry_eq_abs, Rib.abs_withdraw]
+  by_cases h : id = m
+  · subst h; simp [Rib.entry_specDown]
+  · have : ¬ m = id := fun e => h e.symm
+    simp [h, this]
+
+/-- What importing the one-record file `[STATE_CHANGE q Established→Idle]` does, state change site repaired. -/
+theorem importFile_stateChange (ι : PfxInterp) (v : Variant) (hsc : v.mrt.sc = .repaired) (parent : Nat) (s : State)
+    (c : Mrt.Comp) (hc : c.readable = true) (q : Mrt.Peer) :
+    importFile ι v parent s ⟨c, [.stateChange q Mrt.established Mrt.idle]⟩ =
+      match s.reg.find (some parent) q with
+      | some id => ⟨s.reg, s.rib.apply v.rib (.withdraw id none)⟩
+      | none => s := by
+  have hp := processFile_updates v parent s.reg ⟨c, [.stateChange q Mrt.established Mrt.idle]⟩ hc rfl
+  simp only [importFile, fileUpdates, hp, Mrt.msgLoop, hsc, and_self, if_true, List.append_nil]
+  cases s.reg.find (some parent) q with
+  | some id => rfl
+  | none => rfl
+
 end Rotonda.PipeMrt
